@@ -330,7 +330,6 @@ func (c *Ctx) checkHashInjective(h *ssa.Function, tname string, hashed ssa.Value
 	}
 }
 
-
 // narrowingConvert finds, on the value path of a hashed part, a numeric conversion to a narrower type.
 func narrowingConvert(v ssa.Value) string {
 	seen := map[ssa.Value]bool{}
